@@ -26,6 +26,13 @@ pub struct NetState {
     pub events_seen: usize,
 }
 
+thread_local! {
+    /// Role of this thread in a concurrent episode: None outside episodes, Some(0) = update thread, Some(1) = other thread.
+    pub static ROLE: std::cell::Cell<Option<usize>> = std::cell::Cell::new(None);
+}
+/// Response served to a patch check issued by the *other* thread of a concurrent episode.
+pub static RESP_B: Mutex<Option<Resp>> = Mutex::new(None);
+
 pub static NET: Mutex<NetState> = Mutex::new(NetState {
     log: Vec::new(),
     resp: None,
@@ -50,7 +57,38 @@ fn log_lock_act(config: char, updater: char, id: hooks::LockId) {
         l.main.push(match id { hooks::LockId::Config => config, hooks::LockId::Updater => updater });
     }
 }
-fn before_lock_hook(id: hooks::LockId) { log_lock_act('A', 'T', id); }
+// ---- deterministic two-thread scheduler (C11): participating threads park before every acquisition
+// of the state lock until the controller grants them the next section.
+pub struct Sched {
+    pub active: bool,
+    pub waiting: [bool; 2],
+    pub granted: [bool; 2],
+    pub done: [bool; 2],
+    /// return tokens of calls finished since the controller last looked
+    pub rets: [Vec<String>; 2],
+}
+pub static SCHED: Mutex<Sched> = Mutex::new(Sched {
+    active: false, waiting: [false; 2], granted: [false; 2], done: [false; 2], rets: [Vec::new(), Vec::new()],
+});
+pub static SCHED_CV: std::sync::Condvar = std::sync::Condvar::new();
+
+fn park_before_state_lock() {
+    let Some(r) = ROLE.with(|r| r.get()) else { return };
+    let mut s = SCHED.lock().unwrap();
+    if !s.active { return; }
+    s.waiting[r] = true;
+    SCHED_CV.notify_all();
+    while !s.granted[r] {
+        s = SCHED_CV.wait(s).unwrap();
+    }
+    s.granted[r] = false;
+    s.waiting[r] = false;
+}
+
+fn before_lock_hook(id: hooks::LockId) {
+    log_lock_act('A', 'T', id);
+    if let hooks::LockId::Config = id { park_before_state_lock(); }
+}
 fn after_unlock_hook(id: hooks::LockId) { log_lock_act('R', 'U', id); }
 
 pub fn install_lock_hooks() {
@@ -100,7 +138,8 @@ fn check_cb(_url: &str, req: hooks::PatchCheckRequest) -> anyhow::Result<hooks::
         let parsed: hooks::PatchCheckResponse = serde_json::from_str(body)?;
         return Ok(parsed);
     }
-    match &st.resp {
+    let resp = if ROLE.with(|r| r.get()) == Some(1) { RESP_B.lock().unwrap().clone() } else { st.resp.clone() };
+    match &resp {
         None => anyhow::bail!("verif: check failed"),
         Some(r) => Ok(hooks::PatchCheckResponse {
             patch_available: r.available,
@@ -439,6 +478,57 @@ pub fn classify_update_message(status: i32, msg: &str) -> String {
     format!("s{}:{}", status, kind)
 }
 
+/// The calls that may run on either thread of a concurrent episode.
+pub fn exec_call(op: &Op, storage: &Path) -> String {
+    let chan_ptr = |chan: &Option<String>| chan.as_ref().map(|c| cstr(c));
+    match op {
+        Op::Start => { capi::shorebird_report_launch_start(); "u".to_string() }
+        Op::Success => { capi::shorebird_report_launch_success(); "u".to_string() }
+        Op::Failure => { capi::shorebird_report_launch_failure(); "u".to_string() }
+        Op::NextN => format!("n{}", capi::shorebird_next_boot_patch_number()),
+        Op::CurN => format!("n{}", capi::shorebird_current_boot_patch_number()),
+        Op::Auto => if capi::shorebird_should_auto_update() { "b1".to_string() } else { "b0".to_string() },
+        Op::NextP => {
+            let p = capi::shorebird_next_boot_patch_path();
+            if p.is_null() {
+                "p!".to_string()
+            } else {
+                let s = unsafe { CStr::from_ptr(p) }.to_string_lossy().to_string();
+                unsafe { capi::shorebird_free_string(p) };
+                let prefix = format!("{}/patches/", storage.display());
+                match s.strip_prefix(&prefix).and_then(|r| r.strip_suffix("/dlc.vmcode")) {
+                    Some(n) if n.parse::<usize>().map(|k| k.to_string() == n).unwrap_or(false) => format!("p{}", n),
+                    _ => format!("pBAD[{}]", enc_tok(&s)),
+                }
+            }
+        }
+        Op::Check { chan, resp } => {
+            if ROLE.with(|r| r.get()) == Some(1) { *RESP_B.lock().unwrap() = resp.clone(); } else { NET.lock().unwrap().resp = resp.clone(); }
+            let c = chan_ptr(chan);
+            let r = capi::shorebird_check_for_downloadable_update(c.as_ref().map(|c| c.as_ptr()).unwrap_or(std::ptr::null()));
+            if r { "b1".to_string() } else { "b0".to_string() }
+        }
+        Op::Update { chan, resp, dl } => {
+            {
+                let mut st = NET.lock().unwrap();
+                st.resp = resp.clone();
+                st.dl = dl.clone();
+            }
+            let c = chan_ptr(chan);
+            let r = capi::shorebird_update_with_result(c.as_ref().map(|c| c.as_ptr()).unwrap_or(std::ptr::null()));
+            let (status, msg) = unsafe {
+                let status = (*r).status;
+                let m = (*r).message;
+                let msg = if m.is_null() { String::new() } else { CStr::from_ptr(m).to_string_lossy().to_string() };
+                (status, msg)
+            };
+            unsafe { capi::shorebird_free_update_result(r as *mut capi::UpdateResult) };
+            classify_update_message(status, &msg)
+        }
+        _ => "u".to_string(),
+    }
+}
+
 impl Runner {
     pub fn new() -> Runner {
         hooks::reset_config();
@@ -568,10 +658,92 @@ impl Runner {
                 self.damage(d);
                 "u".to_string()
             }
+            Op::Conc { .. } => "u".to_string(), // executed by exec_conc (see run_history)
         };
         drain_bg_threads();
         act_log_pause();
         ret
+    }
+
+    /// A concurrent episode: the update on one thread, `bops` on another, interleaved at every
+    /// acquisition of the state lock as `sched` says. Returns one record per grant: who ran, the
+    /// return tokens of the calls that finished during it, and the storage directory afterwards.
+    pub fn exec_conc(&mut self, upd: &Op, bops: &[Op], sched: &[u8]) -> Vec<(char, Vec<String>, Obs)> {
+        {
+            let mut st = NET.lock().unwrap();
+            st.log.clear();
+            st.resp = None;
+            st.raw_body = None;
+            st.dl = None;
+            st.event_results.clear();
+            st.events_seen = 0;
+        }
+        *RESP_B.lock().unwrap() = None;
+        act_log_pause();
+        {
+            let mut s = SCHED.lock().unwrap();
+            *s = Sched { active: true, waiting: [false; 2], granted: [false; 2], done: [false; 2], rets: [Vec::new(), Vec::new()] };
+        }
+        let storage = self.storage();
+        let ta = {
+            let upd = upd.clone();
+            let st = storage.clone();
+            std::thread::spawn(move || {
+                ROLE.with(|r| r.set(Some(0)));
+                let ret = exec_call(&upd, &st);
+                let mut s = SCHED.lock().unwrap();
+                s.rets[0].push(ret);
+                s.done[0] = true;
+                SCHED_CV.notify_all();
+            })
+        };
+        let tb = {
+            let bops: Vec<Op> = bops.to_vec();
+            let st = storage.clone();
+            std::thread::spawn(move || {
+                ROLE.with(|r| r.set(Some(1)));
+                for op in &bops {
+                    let ret = exec_call(op, &st);
+                    SCHED.lock().unwrap().rets[1].push(ret);
+                }
+                let mut s = SCHED.lock().unwrap();
+                s.done[1] = true;
+                SCHED_CV.notify_all();
+            })
+        };
+        let mut grants = Vec::new();
+        let mut i = 0usize;
+        loop {
+            let who;
+            {
+                let mut s = SCHED.lock().unwrap();
+                while !((s.waiting[0] || s.done[0]) && (s.waiting[1] || s.done[1])) {
+                    s = SCHED_CV.wait(s).unwrap();
+                }
+                if s.done[0] && s.done[1] {
+                    break;
+                }
+                who = if s.waiting[0] && s.waiting[1] {
+                    let c = sched.get(i).copied().unwrap_or(0) as usize;
+                    i += 1;
+                    c.min(1)
+                } else if s.waiting[0] { 0 } else { 1 };
+                s.granted[who] = true;
+                SCHED_CV.notify_all();
+                while s.granted[who] || !(s.waiting[who] || s.done[who]) {
+                    s = SCHED_CV.wait(s).unwrap();
+                }
+            }
+            drain_bg_threads();
+            let rets = std::mem::take(&mut SCHED.lock().unwrap().rets[who]);
+            let obs = self.observe("u".to_string());
+            grants.push((if who == 0 { 'A' } else { 'B' }, rets, obs));
+        }
+        ta.join().unwrap();
+        tb.join().unwrap();
+        SCHED.lock().unwrap().active = false;
+        drain_bg_threads();
+        grants
     }
 
     fn damage(&mut self, d: &Damage) {
